@@ -40,9 +40,9 @@ SIGNED_BITS = {"int": 32, "long": 64, "long long": 64, "int64_t": 64, "int32_t":
                "char": 8, "signed char": 8, "short": 16, "int16_t": 16, "int8_t": 8}
 
 
-def clang_ast(repo, relpath, fn, include_dirs):
+def clang_ast(repo, relpath, fn, include_dirs, defines=()):
     cmd = ["clang", "-Xclang", "-ast-dump=json", "-Xclang", "-ast-dump-filter=" + fn,
-           "-fsyntax-only", "-std=gnu11", "-DNDEBUG", "-w"]
+           "-fsyntax-only", "-std=gnu11", "-DNDEBUG", "-w"] + ["-D" + d for d in defines]
     for d in include_dirs:
         cmd += ["-I", d]
     cmd.append(relpath)
@@ -686,3 +686,837 @@ def translate_scan_down(fdecl, gname, loader=None):
                     return emit(loop_test(hb[1], I, is_break), hs, I)
                 raise LeafError("scan helper %s has an unrecognised shape" % hname)
     raise LeafError("no descending separator scan found")
+
+
+# ---------------------------------------------------------------------------------------------------------
+# The integer parsers muggle_str_to{i,u,l,ul,ll,ull}: a wrapper around ONE call of the strtol family.
+#
+# The whole body is translated (NULL checks, base check, errno reset, the call, the end-pointer tests, the
+# range / sign chain, the store through pval, the return codes); what libc and the string contribute is
+# ABSTRACT input of the generated function:
+#     lret    value returned by strtoX(str, &endptr, base)          ler    the call set errno to ERANGE
+#     lend    endptr - str after the call                            endc   *endptr
+#     tailidx muggle_str_lstrip_idx(endptr)                          firstc str[muggle_str_lstrip_idx(str)]
+#     errno0  errno on entry      pval0  *pval on entry      str_null / pval_null   the pointer is NULL
+# errno is threaded: `errno = e` binds errno_v, the libc call rebinds it to (if ler then 34 else errno_v);
+# `*pval = e` binds pval_v.  The result is the pair (return code, final *pval).
+# Supported beyond the leaf fragment: pointer comparisons `p == NULL`, `!p`, `endptr == str`; `*endptr`,
+# `*pval`, errno; an `if` without `else` whose body falls through (the continuation is duplicated); calls of
+# helpers defined in the same file with any body of the supported statements (inlined; pointer arguments
+# are passed by role, side effects inside helpers are not supported); explicit wrap of EVERY integer
+# conversion that can change the value (signed ones included, unlike the leaf fragment).
+# Anything else -> LeafError -> the obligation breaks.
+
+LIBC_INT = {"strtol": 1, "strtoul": 2, "strtoll": 3, "strtoull": 4}
+PARSER_RESERVED = {"lret", "lend", "endc", "tailidx", "firstc", "ler", "errno_v", "pval_v", "str_null", "pval_null",
+                   "errno0", "pval0"}
+
+
+def tinfo(t):
+    t = t.replace("const ", "").replace("volatile ", "").strip()
+    if t in UNSIGNED_BITS:
+        return (False, UNSIGNED_BITS[t])
+    if t in SIGNED_BITS:
+        return (True, SIGNED_BITS[t])
+    return None
+
+
+def trange(info):
+    sg, b = info
+    return (-(1 << (b - 1)), (1 << (b - 1)) - 1) if sg else (0, (1 << b) - 1)
+
+
+class ParserTr(Tr):
+    def __init__(self):
+        Tr.__init__(self, "Z")
+        self.roles = {}          # pointer variable -> "str" | "pval" | "endptr"
+        self.local_ptrs = set()  # pointer locals declared without initialiser
+        self.uninit = set()      # integer locals declared without initialiser, not yet assigned
+        self.called = None       # name of the libc function once it has been called on this path
+        self.libc_seen = set()
+        self.pair = True         # `return e` yields (e, pval_v); False inside an inlined helper
+        self.allow_libc = False
+        self.base_param = None
+        self.fresh = 0
+
+    # ---- helpers
+    def strip_all(self, n):
+        while n.get("kind") in ("ImplicitCastExpr", "ParenExpr", "CStyleCastExpr") and n.get("inner") and \
+                n.get("castKind") in (None, "LValueToRValue", "NoOp", "BitCast", "NullToPointer", "FunctionToPointerDecay"):
+            n = n["inner"][0]
+        return n
+
+    def is_ptr(self, n):
+        return qt(n).strip().endswith("*")
+
+    def is_null(self, n):
+        while n.get("kind") in ("ImplicitCastExpr", "ParenExpr", "CStyleCastExpr") and n.get("inner"):
+            if n.get("castKind") == "NullToPointer":
+                return True
+            n = n["inner"][0]
+        return False
+
+    def role_of(self, n):
+        n = self.strip_all(n)
+        if n.get("kind") == "DeclRefExpr":
+            return self.roles.get(n.get("referencedDecl", {}).get("name"))
+        return None
+
+    def callee_name(self, n):
+        c = self.strip_all(n["inner"][0])
+        return c.get("referencedDecl", {}).get("name") if c.get("kind") == "DeclRefExpr" else None
+
+    def need_call(self, what):
+        if self.called is None:
+            raise LeafError("%s is used before the strtol-family call" % what)
+
+    def snapshot(self):
+        return (self.called, set(self.uninit), dict(self.roles), dict(self.consts))
+
+    def restore(self, s):
+        self.called, self.uninit, self.roles, self.consts = s[0], set(s[1]), dict(s[2]), dict(s[3])
+
+    # ---- expressions
+    def ptr_eq(self, a, b):
+        """Coq bool for a == b (b None: a == NULL)"""
+        kinds = []
+        for x in (a, b):
+            if x is None or self.is_null(x):
+                kinds.append("null")
+            else:
+                r = self.role_of(x)
+                if r is None:
+                    raise LeafError("comparison of an unrecognised pointer")
+                kinds.append(r)
+        ks = tuple(sorted(kinds))
+        if ks == ("null", "str"):
+            return "str_null"
+        if ks == ("null", "pval"):
+            return "pval_null"
+        if ks == ("endptr", "str"):
+            self.need_call("endptr")
+            return "(lend =? 0)"
+        raise LeafError("unsupported pointer comparison %s == %s" % tuple(kinds))
+
+    def int_cast(self, n):
+        src, dst = n["inner"][0], qt(n)
+        self.check_type(dst)
+        e = self.expr(src)
+        di = tinfo(dst)
+        lo, hi = trange(di)
+        lit = self.strip_casts(src)
+        if lit.get("kind") in ("IntegerLiteral", "CharacterLiteral") and lit is src and lo <= int(lit["value"]) <= hi:
+            return e
+        si = tinfo(qt(src))
+        if self.is_boolean(src):
+            si = (True, 2)
+        if si is not None:
+            slo, shi = trange(si)
+            if lo <= slo and shi <= hi:
+                return e
+        sg, b = di
+        if not sg:
+            return "((%s) mod %d)" % (e, 1 << b)
+        return "(((%s) + %d) mod %d - %d)" % (e, 1 << (b - 1), 1 << b, 1 << (b - 1))
+
+    def value(self, n):
+        k = n.get("kind")
+        inner = n.get("inner", [])
+        if k in ("ImplicitCastExpr", "CStyleCastExpr") and n.get("castKind") == "IntegralCast":
+            return self.int_cast(n)
+        if k == "UnaryOperator" and n.get("opcode") == "*":
+            t = self.strip_all(inner[0])
+            if t.get("kind") == "CallExpr" and self.callee_name(t) == "__errno_location":
+                return "errno_v"
+            r = self.role_of(inner[0])
+            if r == "endptr":
+                self.need_call("*endptr")
+                return "endc"
+            if r == "pval":
+                return "pval_v"
+            raise LeafError("unsupported dereference")
+        if k == "BinaryOperator" and n.get("opcode") in ("==", "!=") and (self.is_ptr(inner[0]) or self.is_ptr(inner[1])):
+            b = self.ptr_eq(inner[0], inner[1])
+            return b if n["opcode"] == "==" else "(negb %s)" % b
+        if k == "UnaryOperator" and n.get("opcode") == "!" and self.is_ptr(inner[0]):
+            return self.ptr_eq(inner[0], None)
+        if k == "CallExpr":
+            name = self.callee_name(n)
+            if name in LIBC_INT:
+                if not self.allow_libc:
+                    raise LeafError("call of %s outside an assignment" % name)
+                return self.libc_call(n, name)
+            if name == "muggle_str_lstrip_idx" and len(inner) == 2:
+                r = self.role_of(inner[1])
+                if r == "endptr":
+                    self.need_call("endptr")
+                    return "tailidx"
+                raise LeafError("muggle_str_lstrip_idx(%s) outside str[...]" % r)
+            return self.inline_fn(n)
+        if k == "ArraySubscriptExpr":
+            idx = self.strip_all(inner[1])
+            if self.role_of(inner[0]) == "str" and idx.get("kind") == "CallExpr" and \
+                    self.callee_name(idx) == "muggle_str_lstrip_idx" and len(idx["inner"]) == 2 and \
+                    self.role_of(idx["inner"][1]) == "str":
+                return "firstc"
+            raise LeafError("unsupported array access")
+        if k == "ConditionalOperator" and len(inner) == 3:
+            return "(if %s then %s else %s)" % (self.cond(inner[0]), self.expr(inner[1]), self.expr(inner[2]))
+        if k == "DeclRefExpr":
+            name = n.get("referencedDecl", {}).get("name")
+            if name in self.uninit:
+                raise LeafError("read of the uninitialised local %s" % name)
+            if self.is_ptr(n):
+                raise LeafError("pointer %s used as a value" % name)
+        return Tr.value(self, n)
+
+    def libc_call(self, n, name):
+        args = n["inner"][1:]
+        if self.called is not None:
+            raise LeafError("second call of the strtol family")
+        if len(args) != 3 or self.role_of(args[0]) != "str":
+            raise LeafError("%s is not called on str" % name)
+        a1 = self.strip_all(args[1])
+        tgt = self.strip_all(a1["inner"][0]) if a1.get("kind") == "UnaryOperator" and a1.get("opcode") == "&" else {}
+        pname = tgt.get("referencedDecl", {}).get("name") if tgt.get("kind") == "DeclRefExpr" else None
+        if pname not in self.local_ptrs:
+            raise LeafError("second argument of %s is not the address of a local end pointer" % name)
+        a2 = self.strip_all(args[2])
+        if a2.get("kind") != "DeclRefExpr" or a2.get("referencedDecl", {}).get("name") != self.base_param:
+            raise LeafError("third argument of %s is not the base parameter" % name)
+        self.roles[pname] = "endptr"
+        self.called = name
+        self.libc_seen.add(name)
+        return "lret"
+
+    def inline_fn(self, n):
+        inner = n.get("inner", [])
+        name = self.callee_name(n)
+        if name is None or self.loader is None:
+            raise LeafError("unsupported call")
+        if self.depth > 8:
+            raise LeafError("call nesting too deep at %s" % name)
+        fn = self.loader(name)
+        parms = [c for c in fn.get("inner", []) if c.get("kind") == "ParmVarDecl"]
+        body = [c for c in fn.get("inner", []) if c.get("kind") == "CompoundStmt"]
+        if not body:
+            raise LeafError("no body for %s" % name)
+        args = inner[1:]
+        if len(args) != len(parms):
+            raise LeafError("argument count mismatch calling %s" % name)
+        new_roles, new_subst, lets = {}, {}, []
+        for p_, a in zip(parms, args):
+            if qt(p_).strip().endswith("*"):
+                r = self.role_of(a)
+                if r is None:
+                    raise LeafError("unrecognised pointer argument of %s" % name)
+                new_roles[p_["name"]] = r
+            else:
+                self.check_type(qt(p_))
+                self.fresh += 1
+                v = "%s_%d" % (p_["name"], self.fresh)
+                lets.append((v, self.expr(a)))
+                new_subst[p_["name"]] = v
+        saved = (self.roles, self.subst, self.pair, self.uninit, self.local_ptrs, self.consts)
+        self.roles, self.subst, self.pair, self.uninit, self.local_ptrs, self.consts = new_roles, new_subst, False, set(), set(), {}
+        self.depth += 1
+        try:
+            e = self.block(list(body[0].get("inner", [])))
+        finally:
+            self.depth -= 1
+            self.roles, self.subst, self.pair, self.uninit, self.local_ptrs, self.consts = saved
+        for v, ex in reversed(lets):
+            e = "(let %s := %s in %s)" % (v, ex, e)
+        return e
+
+    # ---- statements
+    def bind(self, name, e, rest):
+        return "(let %s := %s in\n %s)" % (name, e, self.block(rest))
+
+    def assign(self, lhs, rhs, rest):
+        l = self.strip_casts(lhs)
+        has_libc = self.find_libc(rhs)
+        if has_libc:
+            self.allow_libc = True
+        try:
+            e = self.expr(rhs)
+        finally:
+            self.allow_libc = False
+        if l.get("kind") == "UnaryOperator" and l.get("opcode") == "*":
+            t = self.strip_all(l["inner"][0])
+            if t.get("kind") == "CallExpr" and self.callee_name(t) == "__errno_location":
+                if has_libc:
+                    raise LeafError("errno assigned from the libc call")
+                return self.bind("errno_v", e, rest)
+            if self.role_of(l["inner"][0]) == "pval":
+                if not self.pair:
+                    raise LeafError("store through pval inside a helper")
+                target = "pval_v"
+            else:
+                raise LeafError("store through an unrecognised pointer")
+        elif l.get("kind") == "DeclRefExpr" and not self.is_ptr(l):
+            target = l["referencedDecl"]["name"]
+            if target in self.consts or target in self.subst or target in PARSER_RESERVED:
+                raise LeafError("assignment to %s" % target)
+            self.check_type(qt(l))
+            self.uninit.discard(target)
+        else:
+            raise LeafError("unsupported assignment target")
+        if has_libc:
+            return "(let %s := %s in\n (let errno_v := (if ler then 34 else errno_v) in\n %s))" % (target, e, self.block(rest))
+        return self.bind(target, e, rest)
+
+    def find_libc(self, n):
+        if n.get("kind") == "CallExpr" and self.callee_name(n) in LIBC_INT:
+            return True
+        return any(self.find_libc(c) for c in n.get("inner", []) if isinstance(c, dict))
+
+    def block(self, stmts):
+        if not stmts:
+            raise LeafError("control reaches the end of the function without return")
+        s, rest = stmts[0], stmts[1:]
+        k = s.get("kind")
+        if k == "CompoundStmt":
+            return self.block(list(s.get("inner", [])) + rest)
+        if k == "NullStmt":
+            return self.block(rest)
+        if k == "_Bind":
+            self.consts[s["var"]] = s["value"]
+            return self.block(rest)
+        if k == "ForStmt":
+            return self.block(self.unroll_for(s) + rest)
+        if k == "ReturnStmt":
+            if not s.get("inner"):
+                raise LeafError("return without a value")
+            e = self.expr(s["inner"][0])
+            return "(%s, pval_v)" % e if self.pair else e
+        if k == "IfStmt":
+            inner = s["inner"]
+            c = self.cond(inner[0])
+            snap = self.snapshot()
+            t = self.block([inner[1]] + ([] if self.returns(inner[1]) else rest))
+            self.restore(snap)
+            if len(inner) == 3:
+                e = self.block([inner[2]] + ([] if self.returns(inner[2]) else rest))
+            else:
+                e = self.block(rest)
+            return "(if %s\n   then %s\n   else %s)" % (c, t, e)
+        if k == "BinaryOperator" and s.get("opcode") == "=":
+            return self.assign(s["inner"][0], s["inner"][1], rest)
+        if k == "DeclStmt":
+            for i, d in enumerate(s["inner"]):
+                if d.get("kind") != "VarDecl":
+                    raise LeafError("unsupported declaration")
+                name = d["name"]
+                if name in PARSER_RESERVED:
+                    raise LeafError("local %s clashes with a name of the translator" % name)
+                if qt(d).strip().endswith("*"):
+                    if d.get("inner") and any(x.get("kind") for x in d["inner"]):
+                        r = self.role_of(d["inner"][0])
+                        if r is None:
+                            raise LeafError("pointer local %s with an unrecognised initialiser" % name)
+                        self.roles[name] = r
+                    else:
+                        self.local_ptrs.add(name)
+                    continue
+                self.check_type(qt(d))
+                if not d.get("inner"):
+                    self.uninit.add(name)
+                    continue
+                # an initialised integer local: same as an assignment
+                later = [{"kind": "DeclStmt", "inner": s["inner"][i + 1:]}] if s["inner"][i + 1:] else []
+                fake_lhs = {"kind": "DeclRefExpr", "referencedDecl": {"name": name, "kind": "VarDecl"}, "type": d.get("type", {})}
+                return self.assign(fake_lhs, d["inner"][0], later + rest)
+            return self.block(rest)
+        if k == "CompoundAssignOperator":
+            raise LeafError("compound assignment in a parser wrapper")
+        # an expression statement without effect we model (e.g. a call whose value is dropped) is not supported
+        raise LeafError("unsupported statement kind %s" % k)
+
+
+def translate_parser(fdecl, gname, loader=None):
+    """-> Gallina text: Definition gname (str_null pval_null : bool) (BASE errno0 pval0 lret lend endc tailidx firstc : Z)
+    (ler : bool) : Z * Z  and  Definition gname_libc : Z (1 strtol, 2 strtoul, 3 strtoll, 4 strtoull, 0 none)"""
+    tr = ParserTr()
+    tr.loader = loader
+    body = None
+    parms = [c for c in fdecl.get("inner", []) if c.get("kind") == "ParmVarDecl"]
+    if len(parms) != 3:
+        raise LeafError("expected (const char *str, T *pval, int base)")
+    p_str, p_val, p_base = parms
+    if qt(p_str).replace(" ", "") != "constchar*" or not qt(p_val).strip().endswith("*") or tinfo(qt(p_base)) != (True, 32):
+        raise LeafError("expected (const char *str, T *pval, int base)")
+    pv = tinfo(qt(p_val).strip()[:-1])
+    if pv is None:
+        raise LeafError("pval does not point to an integer type")
+    for p_ in parms:
+        if p_["name"] in PARSER_RESERVED:
+            raise LeafError("parameter %s clashes with a name of the translator" % p_["name"])
+    tr.roles = {p_str["name"]: "str", p_val["name"]: "pval"}
+    tr.base_param = p_base["name"]
+    for c in fdecl.get("inner", []):
+        if c.get("kind") == "CompoundStmt":
+            body = c
+    if body is None:
+        raise LeafError("no body")
+    e = tr.block(list(body.get("inner", [])))
+    libc = 0
+    if len(tr.libc_seen) == 1:
+        libc = LIBC_INT[list(tr.libc_seen)[0]]
+    elif len(tr.libc_seen) > 1:
+        raise LeafError("different strtol-family functions on different paths")
+    return ("Definition %s (str_null pval_null : bool) (%s errno0 pval0 lret lend endc tailidx firstc : Z) (ler : bool) : Z * Z :=\n"
+            "  (let errno_v := errno0 in\n (let pval_v := pval0 in\n %s))%%Z.\n\nDefinition %s_libc : Z := %d%%Z.\n"
+            % (gname, tr.base_param, e, gname, libc))
+
+
+# ---------------------------------------------------------------------------------------------------------
+# Functions of the shape  <prelude> ; ONE loop ; <epilogue>  over NUL-terminated strings
+# (muggle_str_lstrip_idx / rstrip_idx / startswith / endswith), and loop-free variants that use memcmp.
+#
+#   Definition G_iter (strings : list Z) (prelude variables : Z) (st : Z) : Z + Z
+#       one iteration started at the loop head with the loop's single assigned variable = st:
+#       inl st' = back at the loop head, inr v = the function returns v (from the body, or the loop condition
+#       failed / `break` and the epilogue ran).  `for` increments and `continue` are folded in.
+#   Definition G (S_null .. : bool) (strings : list Z) (integer parameters : Z) : option Z
+#       the prelude in continuation style ending in  run_loop (S (sum of the string lengths)) (G_iter ..) st0
+#       (None = the fuel did not suffice, which the obligation excludes).
+# Strings: strlen(s), s[e] and (s + k)[e] with arbitrary index expressions (nth, reading the terminator or
+# beyond gives 0), *p, pointer locals initialised with s + k, `s == NULL` (a boolean parameter), isspace(e) ->
+# Model.is_space, memcmp(p, q, n) ==/!= 0 -> Loop.mem_eq.  ++/-- as statements, and inside a condition only as
+# a direct operand of the comparison that IS the condition (hoisted in front of it).  Run clang with
+# -D__NO_CTYPE so that isspace is a call.  Anything else -> LeafError.
+
+def precise_int_cast(tr, n):
+    return ParserTr.int_cast(tr, n)
+
+
+class LoopTr(Tr):
+    def __init__(self, gname):
+        Tr.__init__(self, "Z")
+        self.gname = gname
+        self.nullflag = {}     # string parameter -> its NULL flag
+        self.ptr = {}          # pointer local -> (string, offset text)
+        self.bound = []        # integer names bound before the loop, in order (parameters first)
+        self.declared = set()  # integer locals declared without initialiser
+        self.state = None
+        self.phase = "pre"
+        self.post = None
+        self.cont = []
+        self.iter_def = None
+        self.string_order = []
+
+    # ---- pointers into strings
+    def strip_ptr(self, n):
+        while n.get("kind") in ("ImplicitCastExpr", "ParenExpr", "CStyleCastExpr") and n.get("inner") and \
+                n.get("castKind") in (None, "LValueToRValue", "NoOp", "BitCast", "ArrayToPointerDecay"):
+            n = n["inner"][0]
+        return n
+
+    def is_ptr(self, n):
+        return qt(n).strip().endswith("*")
+
+    def is_null(self, n):
+        while n.get("kind") in ("ImplicitCastExpr", "ParenExpr", "CStyleCastExpr") and n.get("inner"):
+            if n.get("castKind") == "NullToPointer":
+                return True
+            n = n["inner"][0]
+        return False
+
+    def ptr_of(self, n):
+        """-> (string name, offset text) of a pointer-valued expression"""
+        n = self.strip_ptr(n)
+        k = n.get("kind")
+        if k == "DeclRefExpr":
+            name = n.get("referencedDecl", {}).get("name")
+            if name in self.strings:
+                return (name, "0")
+            if name in self.ptr:
+                return self.ptr[name]
+            raise LeafError("unrecognised pointer %s" % name)
+        if k == "BinaryOperator" and n.get("opcode") in ("+", "-"):
+            a, b = n["inner"]
+            if self.is_ptr(a) and not self.is_ptr(b):
+                s, off = self.ptr_of(a)
+                e = self.expr(b)
+                return (s, "(%s %s %s)" % (off, n["opcode"], e))
+            if n["opcode"] == "+" and self.is_ptr(b) and not self.is_ptr(a):
+                s, off = self.ptr_of(b)
+                return (s, "(%s + %s)" % (off, self.expr(a)))
+        if k == "UnaryOperator" and n.get("opcode") == "&":
+            t = self.strip_ptr(n["inner"][0])
+            if t.get("kind") == "ArraySubscriptExpr":
+                s, off = self.ptr_of(t["inner"][0])
+                return (s, "(%s + %s)" % (off, self.expr(t["inner"][1])))
+        raise LeafError("unsupported pointer expression")
+
+    def rd(self, s, off):
+        return "(nth (Z.to_nat %s) %s 0)" % (off, s)
+
+    def callee(self, n):
+        c = self.strip_ptr(n["inner"][0])
+        while c.get("kind") == "ImplicitCastExpr" and c.get("inner"):
+            c = c["inner"][0]
+        return c.get("referencedDecl", {}).get("name") if c.get("kind") == "DeclRefExpr" else None
+
+    def memcmp_eq(self, call):
+        a = call["inner"][1:]
+        if len(a) != 3:
+            raise LeafError("memcmp with %d arguments" % len(a))
+        (s1, o1), (s2, o2) = self.ptr_of(a[0]), self.ptr_of(a[1])
+        return "(mem_eq %s (Z.to_nat %s) %s (Z.to_nat %s) (Z.to_nat %s))" % (s1, o1, s2, o2, self.expr(a[2]))
+
+    def is_call(self, n, name):
+        n = self.strip_casts(n)
+        return n.get("kind") == "CallExpr" and self.callee(n) == name
+
+    def has_side_effect(self, n):
+        k = n.get("kind")
+        if k == "UnaryOperator" and n.get("opcode") in ("++", "--"):
+            return True
+        if k == "CompoundAssignOperator" or (k == "BinaryOperator" and n.get("opcode") == "="):
+            return True
+        return any(self.has_side_effect(c) for c in n.get("inner", []) if isinstance(c, dict))
+
+    # ---- expressions
+    def is_boolean(self, n):
+        if n.get("kind") == "CallExpr" and self.callee(n) == "isspace":
+            return True
+        return Tr.is_boolean(self, n)
+
+    def lit0(self, n):
+        n = self.strip_casts(n)
+        return n.get("kind") == "IntegerLiteral" and int(n["value"]) == 0
+
+    def value(self, n):
+        k = n.get("kind")
+        inner = n.get("inner", [])
+        if k in ("ImplicitCastExpr", "CStyleCastExpr") and n.get("castKind") == "IntegralCast":
+            return precise_int_cast(self, n)
+        if k == "BinaryOperator" and n.get("opcode") in ("==", "!="):
+            a, b = inner
+            if self.is_ptr(a) or self.is_ptr(b):
+                x, y = (a, b) if self.is_null(b) else (b, a)
+                if not self.is_null(y):
+                    raise LeafError("comparison of two pointers")
+                t = self.strip_ptr(x)
+                name = t.get("referencedDecl", {}).get("name") if t.get("kind") == "DeclRefExpr" else None
+                if name not in self.nullflag:
+                    raise LeafError("NULL test of something that is not a string parameter")
+                return self.nullflag[name] if n["opcode"] == "==" else "(negb %s)" % self.nullflag[name]
+            for x, y in ((a, b), (b, a)):
+                if self.is_call(x, "memcmp") and self.lit0(y):
+                    e = self.memcmp_eq(self.strip_casts(x))
+                    return e if n["opcode"] == "==" else "(negb %s)" % e
+        if k == "UnaryOperator" and n.get("opcode") == "!":
+            if self.is_ptr(inner[0]):
+                t = self.strip_ptr(inner[0])
+                name = t.get("referencedDecl", {}).get("name") if t.get("kind") == "DeclRefExpr" else None
+                if name in self.nullflag:
+                    return self.nullflag[name]
+                raise LeafError("unsupported pointer test")
+            if self.is_call(inner[0], "memcmp"):
+                return self.memcmp_eq(self.strip_casts(inner[0]))
+        if k == "UnaryOperator" and n.get("opcode") == "*":
+            s, off = self.ptr_of(inner[0])
+            return self.rd(s, off)
+        if k == "UnaryOperator" and n.get("opcode") in ("++", "--"):
+            raise LeafError("increment inside an expression")
+        if k == "ArraySubscriptExpr":
+            s, off = self.ptr_of(inner[0])
+            e = self.expr(inner[1])
+            return self.rd(s, e if off == "0" else "(%s + %s)" % (off, e))
+        if k == "CallExpr":
+            name = self.callee(n)
+            if name == "strlen" and len(inner) == 2:
+                s, off = self.ptr_of(inner[1])
+                if off != "0":
+                    raise LeafError("strlen of an offset pointer")
+                return "(Z.of_nat (length %s))" % s
+            if name == "isspace" and len(inner) == 2:
+                return "(is_space %s)" % self.expr(inner[1])
+            if name == "memcmp":
+                raise LeafError("memcmp used other than compared with 0")
+            raise LeafError("unsupported call of %s" % name)
+        if k == "ConditionalOperator" and len(inner) == 3:
+            return "(if %s then %s else %s)" % (self.cond(inner[0]), self.expr(inner[1]), self.expr(inner[2]))
+        if k == "DeclRefExpr":
+            name = n.get("referencedDecl", {}).get("name")
+            if name in self.declared:
+                raise LeafError("read of the uninitialised local %s" % name)
+            if self.is_ptr(n):
+                raise LeafError("pointer %s used as a value" % name)
+        return Tr.value(self, n)
+
+    def cond_hoist(self, c):
+        """condition -> (list of (name, expr) to bind in front, Coq bool).  ++v / v++ / --v / v-- is accepted only as
+        a direct operand of the comparison that is the whole condition."""
+        n = c
+        while n.get("kind") == "ParenExpr":
+            n = n["inner"][0]
+        if n.get("kind") == "BinaryOperator" and n.get("opcode") in ("<", "<=", ">", ">=", "==", "!="):
+            ops = [self.strip_casts(x) for x in n["inner"]]
+            for i, o in enumerate(ops):
+                if o.get("kind") == "UnaryOperator" and o.get("opcode") in ("++", "--") and \
+                        not self.has_side_effect(n["inner"][1 - i]):
+                    tgt = self.strip_casts(o["inner"][0])
+                    if tgt.get("kind") != "DeclRefExpr":
+                        raise LeafError("increment of a non-variable")
+                    v = tgt["referencedDecl"]["name"]
+                    self.assigned(v)
+                    new = self.arith("+" if o["opcode"] == "++" else "-", v, "1", qt(tgt))
+                    lets = []
+                    if o.get("isPostfix"):
+                        lets.append((v + "_old", v))
+                        use = v + "_old"
+                    else:
+                        use = v
+                    lets.append((v, new))
+                    # the comparison itself, with the operand replaced by the variable holding the value it yields
+                    fake = {"kind": "DeclRefExpr", "referencedDecl": {"name": use, "kind": "VarDecl"}, "type": tgt.get("type", {})}
+                    wrapped = self.rewrap(n["inner"][i], o, fake)
+                    m = dict(n)
+                    m["inner"] = [wrapped if j == i else n["inner"][j] for j in (0, 1)]
+                    # bindings take effect before the condition is translated
+                    return lets, m
+        if self.has_side_effect(n):
+            raise LeafError("side effect inside a condition")
+        return [], n
+
+    def rewrap(self, node, target, repl):
+        if node is target:
+            return repl
+        m = dict(node)
+        m["inner"] = [self.rewrap(c, target, repl) if isinstance(c, dict) else c for c in node.get("inner", [])]
+        return m
+
+    # ---- statements
+    def assigned(self, v):
+        if v in self.consts or v in self.subst:
+            raise LeafError("assignment to %s" % v)
+        if self.phase == "iter" and v != self.state and v in self.bound:
+            raise LeafError("the loop assigns more than one variable declared outside it (%s)" % v)
+        self.declared.discard(v)
+        if self.phase == "pre" and v not in self.bound:
+            self.bound.append(v)
+
+    def ret(self, e):
+        return "(Some %s)" % e if self.phase == "pre" else "(inr %s)" % e
+
+    def let(self, name, e, body):
+        return "(let %s := %s in\n %s)" % (name, e, body)
+
+    def if_stmt(self, cnode, then_s, else_s, rest):
+        lets, cn = self.cond_hoist(cnode)
+        saved_declared = set(self.declared)
+
+        def build():
+            c = self.cond(cn)
+            snap = (dict(self.consts), set(self.declared), list(self.bound), dict(self.ptr))
+            t = self.blk([then_s] + ([] if self.returns(then_s) else rest))
+            self.consts, self.declared, self.bound, self.ptr = dict(snap[0]), set(snap[1]), list(snap[2]), dict(snap[3])
+            if else_s is not None:
+                e = self.blk([else_s] + ([] if self.returns(else_s) else rest))
+            else:
+                e = self.blk(rest)
+            return "(if %s\n   then %s\n   else %s)" % (c, t, e)
+        body = None
+        # the bindings are emitted outermost-first; the condition is translated after they are in effect
+        out = build()
+        for name, ex in reversed(lets):
+            out = self.let(name, ex, out)
+        return out
+
+    def loop_vars(self, nodes):
+        found = []
+
+        def walk(n):
+            k = n.get("kind")
+            tgt = None
+            if k == "UnaryOperator" and n.get("opcode") in ("++", "--"):
+                tgt = self.strip_casts(n["inner"][0])
+            elif k == "CompoundAssignOperator" or (k == "BinaryOperator" and n.get("opcode") == "="):
+                tgt = self.strip_casts(n["inner"][0])
+            if tgt is not None and tgt.get("kind") == "DeclRefExpr":
+                name = tgt["referencedDecl"]["name"]
+                if name not in found:
+                    found.append(name)
+            for c in n.get("inner", []):
+                if isinstance(c, dict):
+                    walk(c)
+        for n in nodes:
+            if n and n.get("kind"):
+                walk(n)
+        return found
+
+    def locals_of(self, nodes):
+        out = set()
+
+        def walk(n):
+            if n.get("kind") == "VarDecl":
+                out.add(n["name"])
+            for c in n.get("inner", []):
+                if isinstance(c, dict):
+                    walk(c)
+        for n in nodes:
+            if n and n.get("kind"):
+                walk(n)
+        return out
+
+    def emit_loop(self, cond, inc, body, rest):
+        if self.phase != "pre" or self.iter_def is not None:
+            raise LeafError("more than one loop")
+        parts = [x for x in (cond, inc, body) if x and x.get("kind")]
+        inner_locals = self.locals_of(parts)
+        outer = [v for v in self.loop_vars(parts) if v not in inner_locals]
+        if len(outer) != 1:
+            raise LeafError("the loop assigns %d variables declared outside it (exactly one is supported)" % len(outer))
+        self.state = outer[0]
+        if self.state not in self.bound:
+            raise LeafError("the loop variable %s has no value at the loop head" % self.state)
+        consts = [v for v in self.bound if v != self.state]
+        self.phase, self.post = "iter", rest
+        self.cont = [inc] if inc and inc.get("kind") else []
+        snap = (dict(self.consts), set(self.declared), list(self.bound), dict(self.ptr))
+        if cond and cond.get("kind"):
+            lets, cn = self.cond_hoist(cond)
+            c = self.cond(cn)
+            b = self.blk([body] + self.cont + [{"kind": "_Continue"}])
+            self.consts, self.declared, self.bound, self.ptr = dict(snap[0]), set(snap[1]), list(snap[2]), dict(snap[3])
+            # a failed condition leaves the state as the hoisted bindings made it
+            po = self.blk(rest)
+            e = "(if %s\n   then %s\n   else %s)" % (c, b, po)
+            for name, ex in reversed(lets):
+                e = self.let(name, ex, e)
+        else:
+            e = self.blk([body] + self.cont + [{"kind": "_Continue"}])
+        self.consts, self.declared, self.bound, self.ptr = dict(snap[0]), set(snap[1]), list(snap[2]), dict(snap[3])
+        self.phase = "pre"
+        args = " ".join(["(%s : list Z)" % s for s in self.string_order] + ["(%s : Z)" % v for v in consts])
+        self.iter_def = "Definition %s_iter %s (%s : Z) : Z + Z :=\n  %s%%Z.\n" % (self.gname, args, self.state, e)
+        fuel = "(S (%s))" % " + ".join("length %s" % s for s in self.string_order)
+        return "(run_loop %s (%s_iter %s) %s)" % (fuel, self.gname, " ".join(self.string_order + consts), self.state)
+
+    def blk(self, stmts):
+        if not stmts:
+            raise LeafError("control reaches the end of the function without return")
+        s, rest = stmts[0], stmts[1:]
+        k = s.get("kind")
+        if k == "CompoundStmt":
+            return self.blk(list(s.get("inner", [])) + rest)
+        if k == "NullStmt":
+            return self.blk(rest)
+        if k == "_Continue":
+            return "(inl %s)" % self.state
+        if k == "ReturnStmt":
+            if not s.get("inner"):
+                raise LeafError("return without a value")
+            return self.ret(self.expr(s["inner"][0]))
+        if k == "BreakStmt":
+            if self.phase != "iter":
+                raise LeafError("break outside the loop")
+            return self.blk(self.post)
+        if k == "ContinueStmt":
+            if self.phase != "iter":
+                raise LeafError("continue outside the loop")
+            return self.blk(self.cont + [{"kind": "_Continue"}])
+        if k == "IfStmt":
+            inner = s["inner"]
+            return self.if_stmt(inner[0], inner[1], inner[2] if len(inner) == 3 else None, rest)
+        if k == "WhileStmt":
+            return self.emit_loop(s["inner"][0], None, s["inner"][1], rest)
+        if k == "ForStmt":
+            init, _cv, cond, inc, body = s["inner"]
+            pre = [init] if init and init.get("kind") else []
+            return self.blk(pre + [{"kind": "_Loop", "cond": cond, "inc": inc, "body": body}] + rest)
+        if k == "_Loop":
+            return self.emit_loop(s["cond"], s["inc"], s["body"], rest)
+        if k == "DoStmt":
+            raise LeafError("do-while loop")
+        if k == "UnaryOperator" and s.get("opcode") in ("++", "--"):
+            tgt = self.strip_casts(s["inner"][0])
+            if tgt.get("kind") != "DeclRefExpr":
+                raise LeafError("increment of a non-variable")
+            v = tgt["referencedDecl"]["name"]
+            self.assigned(v)
+            e = self.arith("+" if s["opcode"] == "++" else "-", v, "1", qt(tgt))
+            return self.let(v, e, self.blk(rest))
+        if k == "CompoundAssignOperator":
+            lhs, rhs = s["inner"]
+            tgt = self.strip_casts(lhs)
+            if tgt.get("kind") != "DeclRefExpr" or self.is_ptr(tgt):
+                raise LeafError("compound assignment to a non-variable")
+            v = tgt["referencedDecl"]["name"]
+            r = self.expr(rhs)
+            self.assigned(v)
+            return self.let(v, self.arith(s["opcode"][:-1], v, r, qt(s)), self.blk(rest))
+        if k == "BinaryOperator" and s.get("opcode") == "=":
+            lhs, rhs = s["inner"]
+            tgt = self.strip_casts(lhs)
+            if tgt.get("kind") != "DeclRefExpr":
+                raise LeafError("assignment to a non-variable")
+            v = tgt["referencedDecl"]["name"]
+            if self.is_ptr(tgt):
+                if self.phase != "pre":
+                    raise LeafError("pointer assignment inside the loop")
+                self.ptr[v] = self.ptr_of(rhs)
+                return self.blk(rest)
+            if self.has_side_effect(rhs):
+                raise LeafError("side effect on the right of an assignment")
+            e = self.expr(rhs)
+            self.assigned(v)
+            return self.let(v, e, self.blk(rest))
+        if k == "DeclStmt":
+            for i, d in enumerate(s["inner"]):
+                if d.get("kind") != "VarDecl":
+                    raise LeafError("unsupported declaration")
+                name = d["name"]
+                has_init = bool(d.get("inner")) and any(x.get("kind") for x in d["inner"])
+                if qt(d).strip().endswith("*"):
+                    if has_init:
+                        if self.phase != "pre":
+                            raise LeafError("pointer local inside the loop")
+                        self.ptr[name] = self.ptr_of(d["inner"][0])
+                    continue
+                self.check_type(qt(d))
+                if not has_init:
+                    self.declared.add(name)
+                    continue
+                if self.has_side_effect(d["inner"][0]):
+                    raise LeafError("side effect in an initialiser")
+                e = self.expr(d["inner"][0])
+                self.declared.discard(name)
+                if self.phase == "pre" and name not in self.bound:
+                    self.bound.append(name)
+                later = [{"kind": "DeclStmt", "inner": s["inner"][i + 1:]}] if s["inner"][i + 1:] else []
+                return self.let(name, e, self.blk(later + rest))
+            return self.blk(rest)
+        raise LeafError("unsupported statement kind %s" % k)
+
+
+def translate_loop(fdecl, gname):
+    """-> Gallina text (G_iter when the function has a loop, and G); see the comment above"""
+    tr = LoopTr(gname)
+    parms = [c for c in fdecl.get("inner", []) if c.get("kind") == "ParmVarDecl"]
+    sig = []
+    for p_ in parms:
+        if qt(p_).replace(" ", "") == "constchar*":
+            tr.strings.add(p_["name"])
+            tr.string_order.append(p_["name"])
+            tr.nullflag[p_["name"]] = p_["name"] + "_null"
+        else:
+            tr.check_type(qt(p_))
+            tr.bound.append(p_["name"])
+    body = None
+    for c in fdecl.get("inner", []):
+        if c.get("kind") == "CompoundStmt":
+            body = c
+    if body is None:
+        raise LeafError("no body")
+    e = tr.blk(list(body.get("inner", [])))
+    args = " ".join(["(%s : bool)" % tr.nullflag[s] for s in tr.string_order] +
+                    ["(%s : list Z)" % s for s in tr.string_order] +
+                    ["(%s : Z)" % p_["name"] for p_ in parms if p_["name"] not in tr.strings])
+    out = (tr.iter_def + "\n") if tr.iter_def else ""
+    out += "Definition %s %s : option Z :=\n  %s%%Z.\n" % (gname, args, e)
+    return out
